@@ -106,7 +106,7 @@ def _trace(toks):
                 tk = [["Raised", tk["exc"]]]
             shown.append([{"r": a, "t": b} for a, b in tk])
     ev = {"k": "result", "txt": txt, "raised": o["raised"], "comp": o.get("comp", []), "q": o.get("q", 0),
-          "shown": shown}
+          "shown": shown, "mass9": []}
     if "unencodable" in o:
         return None, o
     return list(toks) + [ev], {"parsed": o, "shown": shown}
